@@ -107,8 +107,24 @@ def cstep (s : State) (toks : List String) : Option (State × String) :=
 def showCh (t : Chan.St) : String :=
   let pc := match t.pc with
     | .handling m => s!"in:{m}"
+    | .sending m => s!"held:{m}"
     | _ => "idle"
   s!"{pc} len={t.chan.length}"
+
+/-- the reader goes on until it has popped a channel message and stands before `dispatchChannel`'s tests
+(`sending m`), or is inside a handler, or has nothing to do -/
+def chToSending : Nat → Chan.St → Chan.St
+  | 0, t => t
+  | n + 1, t =>
+    match t.pc with
+    | .handling _ => t
+    | .sending _ => t
+    | .stopped => t
+    | _ => match Chan.step t .reader with
+      | none => t
+      | some t' => chToSending n t'
+
+def chHeld (t : Chan.St) : Bool := match t.pc with | .sending _ => true | _ => false
 
 /-- the reader of the channel instance runs until it is inside a handler or has nothing to do (two steps
 per queued channel message) -/
@@ -119,10 +135,27 @@ messages have a gated handler): `chstart <cap>`; `chsend <m>` (a channel message
 (a handler message), `chexit` (the running handler returns), `chclose`, `chwait <ms>` (time passes) — answer:
 what the instance is doing and how many messages sit in the channel once the reader has nothing more to do;
 `chread` (the protocol takes one message from its channel if there is one: `got:<m>` / `empty`); `chdrain`
-(it takes all of them: `rest:<m,…>`). -/
+(it takes all of them: `rest:<m,…>`).  `chhold <m>` (idle, open instance only): a channel message is handed
+over and the reader is stopped **between the pop and `dispatchChannel`'s tests** (`held:<m>`); while it stands
+there only `chread`, `chdrain` and `chclose` happen (the others answer `held`); `chrel` lets it go on. -/
 def chstep (s : State) (toks : List String) : Option (State × String) :=
   let fin (t : Chan.St) : Option (State × String) := some ({ s with chan := t }, showCh t)
+  if chHeld s.chan && (match toks with
+      | ["chsend", _] => true | ["chacc", _] => true | ["chexit"] => true | ["chwait", _] => true
+      | ["chhold", _] => true | _ => false) then some (s, "held") else
   match toks with
+  | ["chhold", m] =>
+    match m.toNat? with
+    | some m =>
+      if s.chan.closing then some (s, "not-idle") else
+      match s.chan.pc with
+      | .handling _ => some (s, "not-idle")
+      | _ => match Chan.step s.chan (.accept true m) with
+        | some t => fin (chToSending 8 t)
+        | none => some (s, "blocked")
+    | none => some (s, "bad-op")
+  | ["chrel"] =>
+    if chHeld s.chan then fin (chsettle s.chan) else some (s, "not-held")
   | ["chstart", c] =>
     match c.toNat? with
     | some c => if c = 0 then some (s, "bad-op") else some ({ s with chan := { cap := c } }, "ok")
@@ -147,7 +180,7 @@ def chstep (s : State) (toks : List String) : Option (State × String) :=
     | _ => some (s, "no-handler")
   | ["chclose"] =>
     match Chan.step s.chan .close with
-    | some t => fin (chsettle t)
+    | some t => if chHeld t then fin t else fin (chsettle t)
     | none => some (s, "blocked")
   | ["chwait", ms] =>
     match ms.toNat? with
